@@ -6287,6 +6287,9 @@ fint(Foam foam)
 	hardAssert(fintInitialized);
 
 	fintGetInitInterpTime();
+#ifdef ALDOR_VERIF
+	stoVerifMark();
+#endif
 
 	instrCounter = 0;
 
@@ -6356,6 +6359,9 @@ fintFile(FileName fname)
 	Lib		lib;
 	int             result;
 	fintInit();
+#ifdef ALDOR_VERIF
+	stoVerifMark();
+#endif
 
 	lib = libGetHeader(libNew(fname, false, fileRbOpen(fname),
 				  (Offset) 0));
